@@ -187,6 +187,20 @@ func (c17) Generate(r *engine.Rand, index int, tier string) *engine.Scenario {
 			c17Block(g, r.Range(4, 30))
 		} else {
 			sc.Class = "mode3"
+			if r.Bool() {
+				// LCDC rewritten (LCD left on; objects, their size, the window switched) during the OAM scan
+				// of the very line on which the pointer block then runs in mode 3 or 0
+				g.emit(0x3e, 0x80|r.Byte()&0x7f|0x02, 0xe0, 0x40)      // objects on first
+				v := 0x80 | r.Byte()&0x7f
+				if r.Chance(2, 3) {
+					v &^= 0x02 // objects off
+				}
+				g.emit(0x06, v)                                        // LD B,v
+				g.filler(r.Intn(12))
+				g.emit(0xf0, 0x41, 0xe6, 0x03, 0xfe, 0x02, 0x28, 0xf8) // leave mode 2: LDH A,(41) ; AND 3 ; CP 2 ; JR Z,loop
+				g.emit(0xf0, 0x41, 0xe6, 0x03, 0xfe, 0x02, 0x20, 0xf8) // the scan begins: ... JR NZ,loop
+				g.emit(0x78, 0xe0, 0x40)                               // LD A,B ; LDH (40),A
+			}
 			g.emit(0xf0, 0x41, 0xe6, 0x03, 0xfe, 0x03, 0x20, 0xf8) // loop: LDH A,(41) ; AND 3 ; CP 3 ; JR NZ,loop
 			c17Block(g, r.Range(1, 4))
 		}
